@@ -460,6 +460,24 @@ class UncertainNumber:
     def __array_ufunc__(self, ufunc, method, *inputs, **kwargs):
         if method != "__call__":
             return NotImplemented
+        if (
+            len(inputs) == 2
+            and inputs[1] is self
+            and np.ndim(inputs[0]) == 0
+            and isinstance(inputs[0], (Number, np.ndarray))
+            and not kwargs
+        ):
+            # a numpy scalar on the left (np.float64(2) - U): numpy calls the ufunc
+            # instead of the reflected operator
+            reflected = {
+                np.add: self.__radd__,
+                np.subtract: self.__rsub__,
+                np.multiply: self.__rmul__,
+                np.true_divide: self.__rtruediv__,
+                np.power: self.__rpow__,
+            }
+            if ufunc in reflected:
+                return reflected[ufunc](inputs[0].item())
         if len(inputs) != 1 or inputs[0] is not self:
             return NotImplemented
         if "out" in kwargs and kwargs["out"] is not None:
